@@ -323,3 +323,118 @@ def corrupt(rng, text, kind=None):
         i = rng.randrange(len(b)); j = rng.randrange(len(b))
         b[i], b[j] = b[j], b[i]
     return bytes(b).decode("latin-1"), kind
+
+
+# ----------------------------------------------------------------------------------------------
+# C10: instrumented contender processes
+# ----------------------------------------------------------------------------------------------
+import select, signal, subprocess, time
+
+LOCKER_REL = os.path.join("internal", "locking", "workspace_locker.go")
+
+
+def build_lockproc():
+    """Instrument the *current* workspace_locker.go (yield before every fs call), put the rewritten copy into a
+    private overlay, and build harness/lockproc against it. -> (binary path | None, message, yield labels)"""
+    env = vlib.go_env()
+    tool = os.path.join(vlib.BUILD, "instrument")
+    os.makedirs(vlib.BUILD, exist_ok=True)
+    envt = dict(env); envt["GOFLAGS"] = ""
+    p = subprocess.run(["go", "build", "-o", tool, "."], cwd=os.path.join(vlib.VERIF, "tools", "instrument"), env=envt,
+                       capture_output=True, text=True)
+    if p.returncode != 0:
+        return None, "building tools/instrument failed:\n" + p.stdout + p.stderr, []
+    gen_dir = os.path.join(vlib.BUILD, "c10")
+    os.makedirs(gen_dir, exist_ok=True)
+    gen = os.path.join(gen_dir, "workspace_locker.go")
+    p = subprocess.run([tool, os.path.join(vlib.REPO, LOCKER_REL), gen], capture_output=True, text=True)
+    if p.returncode != 0:
+        return None, "instrumenting workspace_locker.go failed:\n" + p.stdout + p.stderr, []
+    labels = p.stdout.split()
+    out = os.path.join(vlib.BUILD, "lockproc")
+    with vlib.Lock("go-" + vlib._tag):
+        ov = vlib.prepare_overlay()
+        o = json.load(open(ov))
+        o["Replace"][os.path.join(vlib.REPO, LOCKER_REL)] = gen
+        ov2 = os.path.join(vlib.BUILD, "overlay-c10.json")
+        json.dump(o, open(ov2, "w"), indent=1)
+        cmd = ["go", "build", "-tags", "verif", "-overlay", ov2, "-modfile", os.path.join(vlib.BUILD, "go.mod"), "-o", out,
+               "grog/internal/zz_verif/lockproc"]
+        t = time.time()
+        p = subprocess.run(cmd, cwd=vlib.REPO, env=env, capture_output=True, text=True)
+        vlib.log(f"[go build lockproc (instrumented locker)] {time.time()-t:.1f}s rc={p.returncode}")
+    if p.returncode != 0:
+        return None, p.stdout + p.stderr, labels
+    return out, "", labels
+
+
+class Contender:
+    """One real OS process running the instrumented locker, stepped one file-system call at a time."""
+
+    def __init__(self, binary, root, ws):
+        self.p = subprocess.Popen([binary, root, ws], stdin=subprocess.PIPE, stdout=subprocess.PIPE, stderr=subprocess.PIPE)
+        self.alive = True
+        self.state = "new"          # new | pending:<call> | acquired | released | error | dead
+        self.pending = None
+        self.last = None
+        r = self._read()
+        self.pid = int(r[1]) if r and r[0] == "R" else -1
+
+    def _read(self, timeout=10.0):
+        rl, _, _ = select.select([self.p.stdout], [], [], timeout)
+        if not rl:
+            self.last = ("TIMEOUT",)
+            return self.last
+        line = self.p.stdout.readline().decode(errors="replace").strip()
+        if not line:
+            self.last = ("EOF", self.p.stderr.read().decode(errors="replace")[-500:] if self.p.poll() is not None else "")
+            return self.last
+        parts = line.split(" ", 1)
+        self.last = (parts[0], parts[1] if len(parts) > 1 else "")
+        return self.last
+
+    def _cmd(self, c):
+        if not self.alive:
+            return ("DEAD",)
+        try:
+            self.p.stdin.write((c + "\n").encode()); self.p.stdin.flush()
+        except BrokenPipeError:
+            return ("EOF", "")
+        r = self._read()
+        if r[0] == "Y":
+            self.state, self.pending = "pending", r[1]
+        elif r[0] == "A":
+            self.state, self.pending = "acquired", None
+        elif r[0] == "U":
+            self.state, self.pending = "released", None
+        else:
+            self.state, self.pending = "error", None
+        return r
+
+    def lock(self):
+        return self._cmd("lock")
+
+    def unlock(self):
+        return self._cmd("unlock")
+
+    def step(self):
+        return self._cmd("s")
+
+    def kill(self):
+        if self.alive:
+            self.alive = False
+            try:
+                self.p.send_signal(signal.SIGKILL)
+            except ProcessLookupError:
+                pass
+            self.p.wait()
+            self.state, self.pending = "dead", None
+            for f in (self.p.stdin, self.p.stdout, self.p.stderr):
+                try:
+                    f.close()
+                except Exception:
+                    pass
+
+    def label(self):
+        """what the controller sees of this process: the pending call, or acquired / released / dead / error"""
+        return self.pending if self.state == "pending" else self.state
